@@ -181,6 +181,9 @@ func (m *Machine) classifyIntrinsic(fn *ssa.Function) intrEntry {
 	if f, ok := intrTable[name]; ok {
 		return intrEntry{kind: ikTable, f: f, name: name}
 	}
+	if f, ok := syncIntrinsics[name]; ok {
+		return intrEntry{kind: ikTable, f: f, name: name}
+	}
 	if fn.Pkg != nil {
 		path := fn.Pkg.Pkg.Path()
 		if fn.Synthetic == "package initializer" && (!m.interpPkg(path) || strings.HasSuffix(path, "/internal/vnd")) {
@@ -923,6 +926,37 @@ func (m *Machine) idnaToASCII(s StrV, errContract bool) Value {
 	return TupleV{StrV{out}, IfaceV{}}
 }
 
+// idnaRawToASCII: idna.Punycode (the raw profile: no mapping, no validation) on ASCII input without
+// ACE labels is the identity and reports no error (validated by the selftest).
+func (m *Machine) idnaRawToASCII(s StrV) Value {
+	st := m.st
+	nonASCII := st.False
+	for _, b := range s.b {
+		nonASCII = st.Or(nonASCII, st.Bin(OpULe, st.Const(8, 0x80), b))
+	}
+	if m.branch(nonASCII) {
+		m.stats.outsideIDNA++
+		panic(&pathEnd{endOutside, "IDNA: non-ASCII domain"})
+	}
+	ace := st.False
+	n := len(s.b)
+	for i := 0; i+4 <= n; i++ {
+		start := st.True
+		if i > 0 {
+			start = st.Eq(s.b[i-1], st.Const(8, '.'))
+		}
+		c := st.And(start, st.And(
+			st.And(st.Eq(m.lowerByte(s.b[i]), st.Const(8, 'x')), st.Eq(m.lowerByte(s.b[i+1]), st.Const(8, 'n'))),
+			st.And(st.Eq(s.b[i+2], st.Const(8, '-')), st.Eq(s.b[i+3], st.Const(8, '-')))))
+		ace = st.Or(ace, c)
+	}
+	if m.branch(ace) {
+		m.stats.outsideIDNA++
+		panic(&pathEnd{endOutside, "IDNA: ACE label"})
+	}
+	return TupleV{s, IfaceV{}}
+}
+
 // ---------------------------------------------------------------- charmap
 
 func (m *Machine) nativeCharmap(v Value) *charmap.Charmap {
@@ -1090,6 +1124,31 @@ func (m *Machine) idnaToASCIIRecv(recv Value, s StrV) Value {
 	var mir *idnaMirror
 	if isO && o.kind == "idnaprofile" {
 		mir, _ = o.data.(*idnaMirror)
+	}
+	if isO && o.kind == "global" {
+		// one of x/net/idna's predefined profiles, used directly
+		name, _ := o.data.(string)
+		var prof *idna.Profile
+		switch strings.TrimPrefix(name, "golang.org/x/net/idna.") {
+		case "Punycode":
+			prof = idna.Punycode
+		case "Lookup":
+			prof = idna.Lookup
+		case "Display":
+			prof = idna.Display
+		case "Registration":
+			prof = idna.Registration
+		}
+		if prof == nil {
+			m.unsupported("idna profile " + name)
+		}
+		if _, ok := s.concrete(); !ok {
+			if prof != idna.Punycode {
+				m.unsupported("symbolic input to predefined idna profile " + name)
+			}
+			return m.idnaRawToASCII(s)
+		}
+		mir = &idnaMirror{prof: prof}
 	}
 	if cs, ok := s.concrete(); ok && mir != nil && mir.prof != nil {
 		a, err := mir.prof.ToASCII(cs)
